@@ -1,7 +1,8 @@
 package main
 
 // C17 — content helpers.  Case kinds written to cases.txt:
-//   contains <id> <content hex> <needle,needle,...>      (FileContainsAnyBytes / FileContainsBytes)
+//   contains <id> <content hex> <needle,needle,...> [<chunking>]     (FileContainsAnyBytes / FileContainsBytes;
+//     <chunking>: how the opened file's Read splits the bytes, see c17c.go)
 import (
 	"os"
 	"bytes"
@@ -22,10 +23,27 @@ func needlesHex(nd [][]byte) string {
 }
 
 func containsCase(c *Ctx, fs afero.Fs, id string, content []byte, nd [][]byte) {
+	containsCaseOpt(c, fs, id, content, nd, nil)
+}
+
+func containsCaseChunked(c *Ctx, fs afero.Fs, id string, content []byte, nd [][]byte, calls []rcall) {
+	if calls == nil {
+		calls = []rcall{}
+	}
+	containsCaseOpt(c, fs, id, content, nd, calls)
+}
+
+// calls == nil: the file as the filesystem hands it out; otherwise its Read follows the oracle
+func containsCaseOpt(c *Ctx, fs afero.Fs, id string, content []byte, nd [][]byte, calls []rcall) {
 	single := len(nd) == 1
 	name := "/d/f.bin"
 	if err := afero.WriteFile(fs, name, content, 0o644); err != nil {
 		panic(err)
+	}
+	var st *chunkStats
+	if calls != nil {
+		st = &chunkStats{}
+		fs = chunkFs{fs, calls, st}
 	}
 	var got bool
 	var err error
@@ -51,12 +69,27 @@ func containsCase(c *Ctx, fs afero.Fs, id string, content []byte, nd [][]byte) {
 		}
 	}
 	c.NCases++
-	c.Case("contains %s %s %s", id, hx(content), needlesHex(nd))
-	c.Impl("%s %v", id, got)
+	if calls != nil {
+		if st.opens != 1 {
+			panic(fmt.Sprintf("contains %s: the file was opened %d times", id, st.opens))
+		}
+		c.Case("contains %s %s %s %s", id, hx(content), needlesHex(nd), chunkingStr(calls))
+		c.Impl("%s %v", id, got)
+		c.Impl("%s#t reads=%d left=%d", id, st.reads, st.left)
+		c.Count("contains.chunked")
+		c.Count(fmt.Sprintf("contains.chunked.reads<=%d", bucket(st.reads)))
+	} else {
+		c.Case("contains %s %s %s", id, hx(content), needlesHex(nd))
+		c.Impl("%s %v", id, got)
+	}
 	c.Count(fmt.Sprintf("contains.len_content<=%d", bucket(len(content))))
 	c.Count(fmt.Sprintf("contains.result=%v", got))
 	if got != want {
-		c.Oracle("FAIL %s contains:%s content=%s needles=%s got=%v want=%v", id, sigContains(content, nd, got), hx(content), needlesHex(nd), got, want)
+		how := ""
+		if calls != nil {
+			how = " chunking=" + chunkingStr(calls)
+		}
+		c.Oracle("FAIL %s contains:%s content=%s needles=%s%s got=%v want=%v", id, sigContains(content, nd, got), hx(content), needlesHex(nd), how, got, want)
 	}
 	c.Sample(fmt.Sprintf("contains content=%s needles=%s -> %v", hx(content), needlesHex(nd), got))
 }
@@ -104,7 +137,11 @@ func runC17(c *Ctx) {
 				for _, n := range strings.Split(t[3], ",") {
 					nd = append(nd, unhx(n))
 				}
-				containsCase(c, fs, t[1], unhx(t[2]), nd)
+				if len(t) > 4 {
+					containsCaseChunked(c, fs, t[1], unhx(t[2]), nd, parseChunking(t[4]))
+				} else {
+					containsCase(c, fs, t[1], unhx(t[2]), nd)
+				}
 			case "wfile", "wreader", "swreader":
 				runIOLine(c, t) // c17b.go
 			}
@@ -240,6 +277,7 @@ func runC17(c *Ctx) {
 		}
 		containsCase(c, shortReadFs{fs, kmax}, fmt.Sprintf("k%d", i), content, [][]byte{needle})
 	}
+	genC17Chunked(c, fs) // (5) arbitrary io.Reader behaviour (c17c.go)
 	genC17b(c)
 	runC17OS(c) // WriteFile / WriteReader / SafeWriteReader + ReadFile (c17b.go)
 }
